@@ -439,6 +439,24 @@ def rule_iter_loops(ctx, R):
                     from_entities = contains(ent, lambda x: x[0] == "load" and "entities" in show(x))
                     R.check(eidx == cidx and len(eidx) == 1 and from_entities, "C07-R2", k2 + "|" + nm + "-target", "the entity destroyed is entities[idx] of the visit just made",
                             "destroy is called with %s; expected slices.entity[idx] with the visit's idx" % show(ent)[:160], where_of(f, dcalls[0][5]), fn=f.key)
+        # every way out of the query is either falling off the end after having entered the loop of every
+        # matched archetype, or a Break / BreakDestroy arm: nothing else may end the query early
+        for pi, p in enumerate(ps):
+            if p.end != "return":
+                continue
+            segs = loop_segments(p)
+            entered = len(segs)
+            calls_last = user_closure_calls(segs[-1][1], base) if segs else []
+            step = step_value(p, calls_last) if calls_last else None
+            last_hdr_exhausted = False
+            if segs:
+                nx2 = [e for e in segs[-1][1] if e[0] == "call" and cname(e[2]).endswith("next")]
+                last_hdr_exhausted = any(c[2] == "branch" and N(c[0])[0] == "discr" and is_call(N(c[0])[1], "next") and c[1] in ((0,), ("not", 1)) and c[4] >= p.effects.index(nx2[0]) for c in p.conds) if nx2 else False
+            is_break = bool(calls_last) and step in ((1,) if not destroy else (1, 3)) and not last_hdr_exhausted
+            R.check(is_break or (entered == len(want) and last_hdr_exhausted), "C06-R3" if not destroy else "C07-R1", "%s|exit#%d" % (qname, pi),
+                    "the query ends only by %s or after every matched archetype was walked" % ("Break" if not destroy else "Break/BreakDestroy"),
+                    "ecs_%s! can return after entering %d of %d archetype loops without a Break (guards: %s): later matched archetypes are never visited" % (
+                        macro, entered, len(want), " & ".join(show(N(c[0]))[:60] for c in p.conds if c[2] == "branch")[-300:]), where_of(f), fn=f.key)
         want_fields = ["arch_" + snake(a)[5:] if snake(a).startswith("arch_") else snake(a) for a in want]
         # program order = order of the loop markers on the path that enters the most loops
         longest = max(ps, key=lambda q: len([1 for e in q.effects if e[0] == "loop"]))
@@ -692,3 +710,162 @@ def rule_sealed_callbacks(ctx, R):
             t = b["t"]
             if t["k"] == "call" and not t["f"].get("indirect") and t["f"]["path"] in ("std::ops::FnMut::call_mut", "std::ops::FnOnce::call_once", "std::ops::Fn::call"):
                 R.fail("C10-R3", "callback-inside-gecs|%s" % fn.short(), "%s invokes a caller-supplied closure directly; user callbacks must run outside gecs frames" % fn.short(), where_of(fn, t["s"]), fn=fn.key)
+
+
+# ----------------------------------------------------------------------------------
+# SP6: generated event iterator and event/len/clone delegations (C17-R4, C17-R5, C13-R4, C12-R3)
+# ----------------------------------------------------------------------------------
+def sealed_fn(ctx, key):
+    return ctx.spec.fns.get(key)
+
+
+def rule_event_iter(ctx, R):
+    if not ctx.has("events"):
+        present = [k for k in ctx.spec.fns if "EcsEventIterator" in k or k.endswith("::iter_created") or k.endswith("::clear_events")]
+        R.check(not present, "C17-R5", "no-events|generated", "no event code is generated without the events feature", "event code generated without the feature: %s" % present[:3], None)
+        return
+    for world, sealed, order in (("main_world", "main_world::ecs_spec_world_sealed", ORDER), ("single_world", "single_world::ecs_ecs_world_sealed", ["ArchSolo"])):
+        fields = ["iter_" + snake(a) for a in order]
+        n = len(order)
+        fnext = sealed_fn(ctx, "<%s::EcsEventIterator<'a> as std::iter::Iterator>::next" % sealed)
+        fhint = sealed_fn(ctx, "<%s::EcsEventIterator<'a> as std::iter::Iterator>::size_hint" % sealed)
+        if fnext is None or fhint is None:
+            R.anchor_missing("generated EcsEventIterator of " + world)
+            continue
+        wloc = ("field", ("deref", ("arg", 1)), "which")
+        for k in range(n):
+            ps = ctx.specex.run(fnext, pre_store={wloc: ("const", k)})
+            got = set()
+            for p in ps:
+                nxt = [receiver_field(e[3][0]) for e in p.effects if e[0] == "call" and cname(e[2]).endswith("next")]
+                stores = [N(e[2]) for e in p.effects if e[0] == "store" and NL(e[1]) == wloc]
+                final = stores[-1][1] if stores and stores[-1][0] == "const" else k
+                ret = N(p.ret)
+                if is_some(ret):
+                    src = [x for x in subterms(ret) if is_call(x, "next")]
+                    j = fields.index(nxt[-1]) if nxt and nxt[-1] in fields else -1
+                    ok = nxt == fields[k:j + 1] and final == j and bool(src) and receiver_field(src[0][2][0]) == fields[j]
+                    got.add(("some", j))
+                    R.check(ok, "C17-R5", "%s|next(which=%d)->item(%d)" % (world, k, j), "logs %d..%d exhausted in order, item from log %d, position advanced to %d" % (k, j - 1, j, j),
+                            "EcsEventIterator::next from position %d: consults %s, ends at position %s, yields from %s; expected logs %s in order and an item of %s" % (k, nxt, final, receiver_field(src[0][2][0]) if src else None, fields[k:j + 1], fields[j] if j >= 0 else "?"), where_of(fnext), fn=fnext.key)
+                elif is_none(ret):
+                    ok = nxt == fields[k:] and final == n - 1
+                    got.add(("none",))
+                    R.check(ok, "C17-R5", "%s|next(which=%d)->None" % (world, k), "None only after every remaining log was exhausted in order",
+                            "EcsEventIterator::next from position %d returns None after consulting %s (final position %s); expected all of %s" % (k, nxt, final, fields[k:]), where_of(fnext), fn=fnext.key)
+            want = {("some", j) for j in range(k, n)} | {("none",)}
+            R.check(got == want, "C17-R5", "%s|next(which=%d)|outcomes" % (world, k), "every log from %d on can yield" % k, "outcomes from position %d are %s; expected %s" % (k, sorted(got), sorted(want)), where_of(fnext), fn=fnext.key)
+            # size_hint
+            ps = ctx.specex.run(fhint, pre_store={wloc: ("const", k)})
+            full = [p for p in ps if p.end == "return" and N(p.ret)[0] == "agg" and N(p.ret)[4][1][1][0] == "agg" and N(p.ret)[4][1][1][3] == "Some"]
+            ok = len(full) == 1
+            if ok:
+                p = full[0]
+                hints = [receiver_field(e[3][0]) for e in p.effects if e[0] == "call" and cname(e[2]).endswith("size_hint")]
+                ret = N(p.ret)
+                lo, hi = ret[4][0][1], ret[4][1][1][4][0][1]
+                def addends(v):
+                    out = []
+                    st = [v]
+                    while st:
+                        x = st.pop()
+                        if x[0] == "bin" and x[1] == "Add":
+                            st.extend([x[2], x[3]])
+                        elif x != ("const", 0):
+                            out.append(x)
+                    return out
+                lo_f = sorted(receiver_field(x) for x in addends(lo))
+                hi_f = sorted(receiver_field(x) for x in addends(hi))
+                lo_ok = all(contains(x, lambda y: y[0] == "vfield" and y[2] == "0") for x in addends(lo))
+                ok = hints == fields[k:] and lo_f == sorted(fields[k:]) and hi_f == sorted(fields[k:]) and lo_ok
+                R.check(ok, "C17-R5", "%s|size_hint(which=%d)" % (world, k), "size_hint = sum over the remaining logs %s, each once" % fields[k:],
+                        "size_hint from position %d consults %s, lower sums %s, upper sums %s; expected exactly the remaining logs %s" % (k, hints, lo_f, hi_f, fields[k:]), where_of(fhint), fn=fhint.key)
+            else:
+                R.fail("C17-R5", "%s|size_hint(which=%d)|paths" % (world, k), "size_hint has %d all-Some paths from position %d" % (len(full), k), where_of(fhint), fn=fhint.key)
+        # constructors
+        wname = {"main_world": "SpecWorld", "single_world": "EcsWorld"}[world]
+        for m, log in (("iter_created", "created"), ("iter_destroyed", "destroyed")):
+            f = sealed_fn(ctx, "<%s::%s as gecs::traits::World>::%s" % (sealed, wname, m))
+            if f is None:
+                R.anchor_missing("generated World::%s of %s" % (m, world))
+                continue
+            ps = ctx.paths(f, ctx.specex)
+            ok = ps is not None and len(ps) == 1
+            if ok:
+                ret = N(ps[0].ret)
+                d = dict(ret[4]) if ret[0] == "agg" else {}
+                ok = d.get("which") == ("const", 0)
+                for a, fld in zip(order, fields):
+                    v = d.get(fld)
+                    other = "destroyed" if log == "created" else "created"
+                    okf = v is not None and is_call(v, "iter") and contains(v, lambda x: x[0] in ("load", "ref") and snake(a) in show(x)) and \
+                        (contains(v, lambda x: x[0] in ("load", "ref") and log in show(x)) or contains(v, lambda x: x[0] == "call" and cname(x[1]).endswith("::" + log)))
+                    okf = okf and not contains(v, lambda x: (x[0] in ("load", "ref") and other in show(x)) or (x[0] == "call" and cname(x[1]).endswith("::" + other)))
+                    R.check(okf, "C17-R5", "%s|%s|%s" % (world, m, fld), "field %s iterates %s's %s log" % (fld, a, log), "%s.%s is %s; expected %s.data.%s().iter()" % (m, fld, show(v)[:120] if v else None, snake(a), log), where_of(f), fn=f.key)
+            R.check(ok, "C17-R5", "%s|%s|start" % (world, m), "starts at position 0", "%s does not start with which = 0" % m, where_of(f), fn=f.key)
+        f = sealed_fn(ctx, "<%s::%s as gecs::traits::World>::clear_events" % (sealed, wname))
+        if f is None:
+            R.anchor_missing("generated World::clear_events of " + world)
+        else:
+            ps = ctx.paths(f, ctx.specex)
+            ok = ps is not None and len(ps) == 1
+            if ok:
+                cl = [receiver_field(e[3][0]) for e in ps[0].effects if e[0] == "call" and e[4] == 0 and cname(e[2]).endswith("clear_events")]
+                ok = sorted(cl) == sorted(snake(a) for a in order)
+            R.check(ok, "C17-R4", "%s|World::clear_events" % world, "clears both logs of every archetype exactly once", "World::clear_events clears %s" % (cl if ps else None), where_of(f), fn=f.key)
+
+
+def receiver_field(V):
+    V = N(V)
+    for x in subterms(V):
+        if x[0] in ("load", "ref"):
+            L = x[1]
+            while L is not None and isinstance(L, tuple):
+                if L[0] == "field" and L[1] == ("deref", ("arg", 1)):
+                    return L[2]
+                L = L[1] if L[0] in ("field", "downcast", "index", "cindex") else None
+    return None
+
+
+def rule_delegations(ctx, R):
+    """C12-R3 / C13-R4: generated Archetype::{len,capacity,is_empty,version} and Clone delegate field-wise."""
+    sealed = "main_world::ecs_spec_world_sealed"
+    for a in ORDER:
+        for m, fld in (("len", "len"), ("capacity", "capacity"), ("version", "version")):
+            f = sealed_fn(ctx, "<%s::%s as gecs::traits::Archetype>::%s" % (sealed, a, m))
+            if f is None:
+                R.anchor_missing("generated %s::%s" % (a, m))
+                continue
+            ps = ctx.paths(f, ctx.mex) if f.key in mono(ctx).fns else None
+            g = mono(ctx).fns.get(f.key)
+            ps = mpaths(ctx, g) if g is not None else ctx.paths(f, ctx.specex)
+            ok = ps is not None and len(ps) == 1 and N(ps[0].ret) in (("load", ("field", ("field", ("deref", ("arg", 1)), "data"), fld), 0),) or (ps and is_call(N(ps[0].ret), m) and "data" in show(N(ps[0].ret)))
+            R.check(bool(ok), "C12-R3", "%s::%s|delegates" % (a, m), "%s() reports data.%s" % (m, fld), "generated %s::%s returns %s" % (a, m, show(N(ps[0].ret))[:100] if ps else None), where_of(f), fn=f.key)
+        f = sealed_fn(ctx, "<%s::%s as std::clone::Clone>::clone" % (sealed, a))
+        if f is not None:
+            ps = ctx.paths(f, ctx.specex)
+            ok = ps is not None and len(ps) == 1
+            if ok:
+                ret = N(ps[0].ret)
+                d = dict(ret[4]) if ret[0] == "agg" else {}
+                v = d.get("data")
+                ok = v is not None and is_call(v, "clone") and v[2][0] in (("ref", ("field", ("deref", ("arg", 1)), "data")), ("load", ("field", ("deref", ("arg", 1)), "data"), 0))
+            R.check(ok, "C13-R4", "%s::clone" % a, "archetype clone = clone of its storage", "generated %s::clone returns %s" % (a, show(N(ps[0].ret))[:120] if ps else None), where_of(f), fn=f.key)
+    f = sealed_fn(ctx, "<%s::SpecWorld as std::clone::Clone>::clone" % sealed)
+    if f is None:
+        R.anchor_missing("generated SpecWorld::clone")
+    else:
+        ps = ctx.paths(f, ctx.specex)
+        ok = ps is not None and len(ps) == 1
+        if ok:
+            ret = N(ps[0].ret)
+            d = dict(ret[4]) if ret[0] == "agg" else {}
+            for a in ORDER:
+                fld = snake(a)
+                v = d.get(fld)
+                okf = v is not None and is_call(v, "clone") and v[2][0] in (("ref", ("field", ("deref", ("arg", 1)), fld)), ("load", ("field", ("deref", ("arg", 1)), fld), 0))
+                if not okf and v is not None and v[0] == "agg" and len(v[4]) == 1 and v[4][0][0] == "data":
+                    inner = v[4][0][1]  # the archetype's own clone (judged above) inlined
+                    okf = is_call(inner, "clone") and inner[2][0] == ("ref", ("field", ("field", ("deref", ("arg", 1)), fld), "data"))
+                R.check(okf, "C13-R4", "SpecWorld::clone|%s" % fld, "world field %s <- self.%s.clone()" % (fld, fld), "world clone sets %s = %s" % (fld, show(v)[:100] if v else None), where_of(f), fn=f.key)
+            R.check(sorted(d) == sorted(snake(a) for a in ORDER), "C13-R4", "SpecWorld::clone|fields", "all archetypes cloned", "fields %s" % sorted(d), where_of(f), fn=f.key)
